@@ -119,7 +119,8 @@ Definition step (c : cfg) (s : st) (a : act) : option st :=
            then Some (mkSt (p_nums s) (p_off s) (p_log s) (v_cache s) (v_inproc s) (v_tbf s) (v_tbfoff s) (v_next s) true false (v_act s) (v_fl s) (v_flrun s) (v_flcancel s) (v_sig s))
            else None
   | CNext k n =>
-      if negb (v_txn s) then None else
+      (* client protocol: numbers are drawn before the transaction's event is appended *)
+      if negb (v_txn s) || v_app s then None else
       let '(base, cache1) :=
         match lru_get k (v_cache s) with
         | Some (v, c') => (v, c')
